@@ -84,4 +84,4 @@ chk("C18", "fault injection at every crash point of a generated update, differen
     "queries must equal the twin's, and a fault-free repeat must reproduce the twin's final contents; one more world takes 2-3 faulty "
     "attempts in a row before the repeat.",
     TRUST + " Linear knobs (incremental, not idempotent by design) and in-place observed assignments are outside the check.",
-    "DESIGN.md 4/C18")
+    "DESIGN.md 4/C18", category="fault_enumeration")
